@@ -787,3 +787,24 @@ func (sa *Safe) atomInvariant(a, rankAtom atomID, fn *ssa.Function, body map[*ss
 	}
 	return true
 }
+
+
+// loopCensus counts the natural loops (distinct headers of back edges, on the dominator tree) of
+// every function the analysis entered — independently of the ranking rules.
+func (sa *Safe) loopCensus() int {
+	n := 0
+	for fn := range sa.w.AllFuncs() {
+		if fn.Blocks == nil || !sa.Funcs[SSAFuncName(fn)] {
+			continue
+		}
+		for _, h := range fn.Blocks {
+			for _, p := range h.Preds {
+				if h.Dominates(p) {
+					n++
+					break
+				}
+			}
+		}
+	}
+	return n
+}
